@@ -23,8 +23,8 @@ def cases(draw, max_steps=14):
         r["mult"] = 1
     scn["forcing"]["vel"]["kind"] = draw(st.sampled_from(["shear", "shear", "noise"]))
     scn["grid"]["h"] = draw(st.sampled_from(["noise", "slope"]))
-    # flavours: 0, 1 generic; 2 coastal; 3 stage_cross; 4 units_shift; 5 border; 6 empty_gap
-    flav = draw(st.integers(0, 6))
+    # flavours: 0, 1 generic; 2 coastal; 3 stage_cross; 4 units_shift; 5 border; 6 empty_gap; 7 dense_release
+    flav = draw(st.integers(0, 7))
     if flav == 2:
         # coastal flavour: everybody is released next to land in a flow that pushes towards it, some particles
         # are switched off or die early and stay in the state (dense layout, or output period > 1)
@@ -112,12 +112,32 @@ def cases(draw, max_steps=14):
         scn["ibm"]["kills"] = []
         scn["ibm"]["lifetime"] = 0
         scn["empty_gap"] = min(r["tag"] for r in rows)
+    if flav == 7:
+        # dense layout (dead particles stay in the state): one of the first particles dies early in the variant
+        # run, others are released after that
+        scn["output"]["layout"] = "dense"
+        nst = scn["time"]["nsteps"] = max(scn["time"]["nsteps"], 7)
+        need = scn["time"]["pre"] + nst + 1
+        while sum(scn["forcing"]["gaps"]) < need:
+            scn["forcing"]["gaps"].append(draw(st.integers(1, 4)))
+        scn["forcing"]["partition"] = [len(scn["forcing"]["gaps"]) + 1]
+        rows = scn["release"]["rows"]
+        first = min(r["step"] for r in rows)
+        base = dict(rows[0])
+        rows[:] = [dict(base, step=first, tag=k, fx=base["fx"] * (1 - 0.15 * k), fy=-base["fy"] * (1 - 0.1 * k))
+                   for k in range(3)]
+        for k in range(draw(st.integers(1, 3))):
+            rows.append(dict(base, step=min(first + 3 + k, nst - 1), tag=len(rows), cell=draw(st.integers(0, 10**6))))
+        scn["ibm"].update(kills=[], lifetime=0)
+        scn["dense_release"] = True
     ntag = len(scn["release"]["rows"])
     variant = draw(st.sampled_from(["drop", "add", "permute", "kill_others", "shift", "repeat", "kill_others", "drop"]))
     if scn.get("stage_cross"):
         variant = draw(st.sampled_from(["kill_others", "kill_others", "drop"]))
     if scn.get("units_shift"):
         variant = "shift"
+    if scn.get("dense_release"):
+        variant = "kill_others"
     if "border" in scn or "empty_gap" in scn:
         variant = "drop"
     v = dict(kind=variant)
@@ -133,6 +153,9 @@ def cases(draw, max_steps=14):
                           mult=1, tag=1000 + k) for k in range(draw(st.integers(1, 4)))]
     elif variant == "permute":
         v["seed"] = draw(st.integers(0, 10**6))
+    elif variant == "kill_others" and scn.get("dense_release"):
+        v["victims"] = [draw(st.integers(0, 1))]
+        v["when"] = [min(r["step"] for r in scn["release"]["rows"]) + 1]
     elif variant == "kill_others" and scn.get("stage_cross"):
         # a few of the first particles die one after the other early in the run: several death-then-record events
         v["victims"] = list(range(draw(st.integers(1, 3))))
@@ -179,8 +202,10 @@ def make_variant(scn):
     return s2, shift, compare
 
 
-def trajectories(d, scn, names):
-    """tag -> list of (time, {var: value}) from the output files (sparse or dense)."""
+def trajectories(d, scn, names, columns=None):
+    """tag -> list of (time, {var: value}) from the output files (sparse or dense).
+
+    columns (dense layout): filled with tag -> set of columns of the particle axis the tag was found in."""
     traj: dict = {}
     layout = scn["output"]["layout"]
     for name in names:
@@ -197,6 +222,8 @@ def trajectories(d, scn, names):
                 m = np.ma.getmaskarray(row)
                 for p in range(len(row)):
                     if not m[p]:
+                        if columns is not None:
+                            columns.setdefault(int(row[p]), set()).add(p)
                         traj.setdefault(int(row[p]), []).append(
                             (t, {v: f["inst"][v][n, p] for v in VARS if v in f["inst"]}))
     return traj
@@ -217,6 +244,8 @@ def oracle(scn) -> core.CaseResult:
         res.cls("border")
     if "empty_gap" in scn:
         res.cls("empty_gap")
+    if scn.get("dense_release"):
+        res.cls("dense_release")
     s2, shift, compare = make_variant(scn)
     with e2e.workdir() as d1, e2e.workdir() as d2:
         r1, m1 = sim.run(d1, scn, record_output=False)
@@ -226,8 +255,15 @@ def oracle(scn) -> core.CaseResult:
             res.fail("run_fails", f"{bad['exc']}\n{(bad['tb'] or '')[-600:]}")
             return res
         n1, n2 = e2e.list_outputs(d1), e2e.list_outputs(d2)
-        t1 = trajectories(d1, scn, n1)
-        t2 = trajectories(d2, s2, n2)
+        col1, col2 = {}, {}
+        t1 = trajectories(d1, scn, n1, col1)
+        t2 = trajectories(d2, s2, n2, col2)
+    for which, cols in (("base", col1), ("variant", col2)):
+        moved = {tg: sorted(c) for tg, c in cols.items() if len(c) > 1}
+        if not res.check(not moved, "dense_column_changes",
+                         f"{which} run ({v['kind']}): in the dense file a particle's values move between columns of the "
+                         f"particle axis (tag -> columns {moved})"):
+            return res
     dt = np.timedelta64(shift * sim.DT, "s")
     tags = set(t1) & set(t2)
     if compare is not None:
@@ -281,7 +317,7 @@ def shard(n, seed, known, max_steps):
 
 def run(ctx):
     jobs = [(k, core.subseed(ctx.seed, "p", i), ctx.known_sigs, ctx.n(14, 40))
-            for i, k in enumerate(core.split(ctx.n(1120, 16000), 16))]
+            for i, k in enumerate(core.split(ctx.n(1280, 16000), 16))]
     stats = core.Stats()
     for s in core.pmap(shard, jobs):
         stats.merge(s)
